@@ -23,6 +23,24 @@ Section Search.
 Variables s1 s2 : spec.
 Hypothesis W1 : eq_wf s1.
 Hypothesis W2 : eq_wf s2.
+Variable exact : bool.     (* which pairs the ancestor set holds: see Model.anc_pairs *)
+
+Lemma anc_pairs_prod p1 p2 c1 c2 q :
+  In c1 p1 -> In c2 p2 -> In q (anc_pairs exact p1 p2 c1 c2) -> In q (list_prod p1 p2).
+Proof.
+  intros H1 H2. unfold anc_pairs. destruct exact; auto.
+  intros [<-|[]]. apply in_prod; auto.
+Qed.
+
+Lemma anc_pairs_self p1 p2 c1 c2 : In c1 p1 -> In c2 p2 -> In (c1, c2) (anc_pairs exact p1 p2 c1 c2).
+Proof.
+  intros H1 H2. unfold anc_pairs. destruct exact; [left; reflexivity|apply in_prod; auto].
+Qed.
+
+Lemma eq_path_last_in s n p : eq_wf s -> eq_path s n = Ok p -> In (last p n) p.
+Proof.
+  intros W H. destruct (eq_path_spec s n p W H) as (r & Hf & [[He ->]|(d & He & Hc & ->)]); simpl; auto.
+Qed.
 
 Definition noneq (s : spec) (c : Z) : Prop :=
   exists r, find_rule s c = Some r /\ r_iseq r = false.
@@ -128,13 +146,15 @@ Qed.
 Section Discharge.
 (* the pair (c1, c2) at the ends of the paths p1, p2 has just been matched *)
 Variables (A : list (Z * Z)) (p1 p2 : list Z) (c1 c2 : Z) (M M' : order_map).
+Variable ps : list (Z * Z).
+Hypothesis PS : forall q, In q ps -> In q (list_prod p1 p2).
 Hypothesis P1 : forall x, In x p1 -> on_chain s1 c1 x.
 Hypothesis P2 : forall y, In y p2 -> on_chain s2 c2 y.
 Hypothesis HM : forall e1 e2, Kne M e1 e2 -> Kne M' e1 e2.
 Hypothesis J0 : accept M' A c1 c2.
 
 Lemma discharge a b :
-  accept M (set_add_all A (list_prod p1 p2)) a b -> accept M' A a b.
+  accept M (set_add_all A ps) a b -> accept M' A a b.
 Proof.
   intros (e1 & e2 & k1 & k2 & C1 & C2 & J).
   destruct J as [J|[J|(x & y & Hin & O1 & O2)]].
@@ -142,7 +162,7 @@ Proof.
   - exists e1, e2, k1, k2. auto.
   - apply set_add_all_In in Hin. destruct Hin as [Hin|Hin].
     + exists e1, e2, k1, k2. split; [auto|]. split; [auto|]. right; right. exists x, y. auto.
-    + apply in_prod_iff in Hin. destruct Hin as [Hx Hy].
+    + apply PS in Hin. apply in_prod_iff in Hin. destruct Hin as [Hx Hy].
       eapply accept_lift; [| |exact J0].
       * eapply on_chain_trans; [apply P1; exact Hx|exact O1].
       * eapply on_chain_trans; [apply P2; exact Hy|exact O2].
@@ -173,13 +193,13 @@ Definition unknown_facts (s : st) (p1 p2 : list Z) (c1 c2 : Z) (r1 r2 : rule) : 
   r_isrule r1 = true /\ r_isrule r2 = true /\ r_iseq r1 = r_iseq r2 /\
   c_tag (r_ctor r1) = c_tag (r_ctor r2) /\
   ctor_equiv (r_ctor r1) (r_ctor r2) = true /\
-  (forall p, In p (list_prod p1 p2) -> ~ In p (anc s)).
+  (forall p, In p (anc_pairs exact p1 p2 c1 c2) -> ~ In p (anc s)).
 
 Lemma base_cases_spec s n1 n2 p1 p2 r1 r2 bc :
   Inv (om s) (anc s) ->
   eq_path s1 n1 = Ok p1 -> eq_path s2 n2 = Ok p2 ->
   find_rule s1 (last p1 n1) = Some r1 -> find_rule s2 (last p2 n2) = Some r2 ->
-  base_cases s p1 p2 (last p1 n1) (last p2 n2) r1 r2 (ne_children s1 r1) (ne_children s2 r2) = Ok bc ->
+  base_cases exact s p1 p2 (last p1 n1) (last p2 n2) r1 r2 (ne_children s1 r1) (ne_children s2 r2) = Ok bc ->
   (bc = 1 -> accept (om s) (anc s) n1 n2) /\
   (bc <> 1 -> bc <> -1 -> unknown_facts s p1 p2 (last p1 n1) (last p2 n2) r1 r2).
 Proof.
@@ -229,9 +249,11 @@ Proof.
   2:{ intros H. inversion H; subst bc. split; intros; congruence. }
   pose proof Hc as Hce.
   unfold ctor_equiv in Hc. apply andb_true_iff in Hc. destruct Hc as [Ht _]. apply Z.eqb_eq in Ht.
-  destruct (existsb (fun p => pair_in p (anc s)) (list_prod p1 p2)) eqn:Hx.
+  destruct (existsb (fun p => pair_in p (anc s)) (anc_pairs exact p1 p2 c1 c2)) eqn:Hx.
   { intros H. inversion H; subst bc. split; [intros _|congruence].
     apply existsb_exists in Hx. destruct Hx as ([x y] & Hin & Hp). apply pair_in_In in Hp.
+    apply (anc_pairs_prod p1 p2 c1 c2) in Hin;
+      [|apply (eq_path_last_in _ _ _ W1 E1)|apply (eq_path_last_in _ _ _ W2 E2)].
     apply in_prod_iff in Hin. destruct Hin as [Hx Hy].
     destruct (eq_path_on_chain _ _ _ W1 E1 _ Hx) as [X1 _].
     destruct (eq_path_on_chain _ _ _ W2 E2 _ Hy) as [Y1 _].
@@ -244,7 +266,7 @@ Proof.
   intros H. inversion H; subst bc. split; [congruence|]. intros _ _.
   unfold unknown_facts. repeat (split; [assumption|]).
   intros p Hp Hin.
-  assert (X : existsb (fun p0 => pair_in p0 (anc s)) (list_prod p1 p2) = true).
+  assert (X : existsb (fun p0 => pair_in p0 (anc s)) (anc_pairs exact p1 p2 c1 c2) = true).
   { apply existsb_exists. exists p. split; auto. apply pair_in_In; auto. }
   congruence.
 Qed.
@@ -503,11 +525,6 @@ Qed.
 End Loop.
 
 (* ------------------------------------------------------------------ the recursive call *)
-Lemma eq_path_last_in s n p : eq_wf s -> eq_path s n = Ok p -> In (last p n) p.
-Proof.
-  intros W H. destruct (eq_path_spec s n p W H) as (r & Hf & [[He ->]|(d & He & Hc & ->)]); simpl; auto.
-Qed.
-
 Lemma Inv_weaken M A A' : (forall p, In p A -> In p A') -> Inv M A -> Inv M A'.
 Proof.
   intros H HI c1 c2 perm Hin. eapply entry_ok_map; [|apply HI; eauto].
@@ -518,7 +535,7 @@ Lemma ne_children_eq s r d : r_children r = [d] -> is_empty s d = false -> ne_ch
 Proof. intros Hc He. unfold ne_children. rewrite Hc. simpl. rewrite He. reflexivity. Qed.
 
 Lemma iso_post : forall f s n1 n2 r s',
-  Inv (om s) (anc s) -> iso s1 s2 f s n1 n2 = Ok (r, s') -> post s n1 n2 r s'.
+  Inv (om s) (anc s) -> iso exact s1 s2 f s n1 n2 = Ok (r, s') -> post s n1 n2 r s'.
 Proof.
   induction f as [|f IH]; intros s n1 n2 r s' HI; [discriminate|].
   cbn [iso].
@@ -527,7 +544,7 @@ Proof.
   set (c1 := last p1 n1). set (c2 := last p2 n2).
   destruct (find_rule s1 c1) as [r1|] eqn:F1; [|discriminate].
   destruct (find_rule s2 c2) as [r2|] eqn:F2; [|discriminate].
-  destruct (base_cases s p1 p2 c1 c2 r1 r2 (ne_children s1 r1) (ne_children s2 r2)) as [bc| |] eqn:Eb;
+  destruct (base_cases exact s p1 p2 c1 c2 r1 r2 (ne_children s1 r1) (ne_children s2 r2)) as [bc| |] eqn:Eb;
     cbn [bind]; try discriminate.
   destruct (base_cases_spec s n1 n2 p1 p2 r1 r2 bc HI E1 E2 F1 F2 Eb) as [Hv Hu].
   destruct (Z.eqb bc 1) eqn:B1.
@@ -538,11 +555,13 @@ Proof.
   { intros H; inversion H; subst r s'. split; [reflexivity|]. split; [reflexivity|discriminate]. }
   apply Z.eqb_neq in B1. apply Z.eqb_neq in B2.
   destruct (Hu B1 B2) as (Hm & Hl & R1 & R2 & Hq & Ht & Hce & Hanc). clear Hv Hu.
-  set (pr := list_prod p1 p2) in *.
+  set (pr := anc_pairs exact p1 p2 c1 c2) in *.
   set (n := length (ne_children s1 r1)).
   set (sA := mkSt (set_add_all (anc s) pr) (om s) (failed s)).
   assert (Hc12 : In (c1, c2) pr).
-  { apply in_prod; [apply (eq_path_last_in _ _ _ W1 E1)|apply (eq_path_last_in _ _ _ W2 E2)]. }
+  { apply anc_pairs_self; [apply (eq_path_last_in _ _ _ W1 E1)|apply (eq_path_last_in _ _ _ W2 E2)]. }
+  assert (PS : forall q, In q pr -> In q (list_prod p1 p2)).
+  { intros q. apply anc_pairs_prod; [apply (eq_path_last_in _ _ _ W1 E1)|apply (eq_path_last_in _ _ _ W2 E2)]. }
   assert (P1 : forall x, In x p1 -> on_chain s1 c1 x).
   { intros x Hx. apply (eq_path_on_chain _ _ _ W1 E1 _ Hx). }
   assert (P2 : forall y, In y p2 -> on_chain s2 c2 y).
@@ -554,7 +573,7 @@ Proof.
   assert (Hsub : forall p, In p (anc s) -> In p (anc sA)).
   { intros p Hp. simpl. apply set_add_all_In. auto. }
   assert (HIA : Inv (om sA) (anc sA)) by (simpl; eapply Inv_weaken; [|exact HI]; exact Hsub).
-  destruct (iso_loop (iso s1 s2 f) (S f) (ne_children s1 r1) (ne_children s2 r2) n
+  destruct (iso_loop (iso exact s1 s2 f) (S f) (ne_children s1 r1) (ne_children s2 r2) n
                      (init_stack n) [] (repeat (-1) n) sA) as [[ro s0]| |] eqn:El;
     cbn [bind]; try discriminate.
   assert (Hst : stack_ok (ne_children s1 r1) (ne_children s2 r2) n (anc sA) (om sA) (repeat (-1) n)
@@ -572,7 +591,7 @@ Proof.
       - intros js' Hin. apply in_map_iff in Hin. destruct Hin as (x & <- & _). apply prefix_refl.
       - apply IHl. intros x Hx. apply Hl'. right; auto. }
     apply G. intros i Hi. apply in_seq in Hi. lia. }
-  destruct (loop_post (ne_children s1 r1) (ne_children s2 r2) n eq_refl (eq_sym Hl) (anc sA) (iso s1 s2 f) IH
+  destruct (loop_post (ne_children s1 r1) (ne_children s2 r2) n eq_refl (eq_sym Hl) (anc sA) (iso exact s1 s2 f) IH
                       (S f) _ _ _ _ _ _ _ eq_refl HIA (repeat_length _ _) Hst El)
     as (An & (new & Enew & Fnew) & HI0 & Hr).
   simpl in Enew.
@@ -616,14 +635,14 @@ Proof.
       simpl in Hin. apply set_add_all_In in Hin. destruct Hin as [Hin|Hin].
       + right; right. exists x, y. split; [auto|].
         split; econstructor; eauto.
-      + exfalso. apply in_prod_iff in Hin. destruct Hin as [Hx _].
+      + exfalso. apply PS in Hin. apply in_prod_iff in Hin. destruct Hin as [Hx _].
         eapply (no_cycle s1 c1 r1 d1 x); eauto.
     - assert (Q2 : r_iseq r2 = false) by congruence.
       exists c1, c2, O, O. split; [econstructor; eauto|]. split; [econstructor; eauto|].
       left. split; [apply (In_om_has M' (c1, c2) co); left; reflexivity|].
       split; [exists r1; auto|exists r2; auto]. }
   assert (Hdis : forall a b, accept (om s0) (anc sA) a b -> accept M' (anc s) a b).
-  { intros a b. simpl. apply (discharge (anc s) p1 p2 c1 c2 (om s0) M' P1 P2 HM J0). }
+  { intros a b. simpl. apply (discharge (anc s) p1 p2 c1 c2 (om s0) M' pr PS P1 P2 HM J0). }
   split; [exact Hrem|]. split; [discriminate|]. intros _. split; [|split].
   - exists (((c1, c2), co) :: new). simpl. unfold M'. rewrite Enew. split; [reflexivity|].
     intros k v [Hk|Hk].
@@ -645,7 +664,7 @@ Qed.
 
 (* the invariant and the acceptance of the roots at the end of a successful search *)
 Theorem iso_sound_inv : forall fuel s,
-  are_isomorphic s1 s2 fuel = Ok (true, s) ->
+  are_isomorphic exact s1 s2 fuel = Ok (true, s) ->
   Inv (om s) [] /\ accept (om s) [] (s_root s1) (s_root s2).
 Proof.
   intros fuel s H. unfold are_isomorphic in H.
@@ -656,7 +675,7 @@ Qed.
 
 (* the search started on the roots with nothing assumed *)
 Theorem iso_sound : forall fuel s,
-  are_isomorphic s1 s2 fuel = Ok (true, s) -> valid_cert s1 s2 (om s).
+  are_isomorphic exact s1 s2 fuel = Ok (true, s) -> valid_cert s1 s2 (om s).
 Proof.
   intros fuel s H. unfold are_isomorphic in H.
   assert (HI : Inv (om st0) (anc st0)) by (intros ? ? ? []).
